@@ -11,6 +11,7 @@ usage (cwd anywhere; run with any python >= 3.8, the checks themselves use /venv
   tools/mutation_sweep.py list   [--envs tsp,cvrp] [--cap 25] [--all]      enumerate (selected | all) mutants
   tools/mutation_sweep.py run    [--envs ...] [--cap 25] [--workers 4] [--minutes 150] [--fresh]
                                                                              run the sweep (resumes audit/mutation_sweep.json)
+  tools/mutation_sweep.py followup [--minutes 20]                           survivors in mask/step/reset code additionally vs C03
   tools/mutation_sweep.py report                                             regenerate audit/MUTATION_SWEEP.md from the json
   tools/mutation_sweep.py show  <mutant-id>                                  print the stored diff
   tools/mutation_sweep.py apply <mutant-id> <tree>                           apply one mutant to a scratch tree (for triage)
@@ -53,6 +54,7 @@ AUDIT = VERIF / "audit"
 JSON_OUT = AUDIT / "mutation_sweep.json"
 MD_OUT = AUDIT / "MUTATION_SWEEP.md"
 PY = "/venv/bin/python"
+CHECK_TIMEOUT = 300     # a quick-tier check restricted to one unit takes 15-70 s (budget 180 s); beyond this the mutant made the harness spin
 TEST_TIMEOUT = 150      # the env tests take ~10-30 s; a mutant that makes the random rollout spin forever is "killed by tests (hang)"
 
 # ---------------------------------------------------------------------------------------------- environments
@@ -542,7 +544,7 @@ class Worker:
         e.pop("VERIF_ONLY", None)
         if only:
             e["VERIF_ONLY"] = only
-        rc, out, secs = sh([str(VERIF / "check"), prop, "--tier", "quick"], cwd=str(VERIF), env=e, timeout=1800)
+        rc, out, secs = sh([str(VERIF / "check"), prop, "--tier", "quick"], cwd=str(VERIF), env=e, timeout=CHECK_TIMEOUT)
         vio = [ln for ln in out.splitlines() if "VIOLATION" in ln]
         # replay files written by this run (printed, or named in the evidence): remove them again (they describe mutants)
         paths = set(re.findall(r"(/verif/replays/[\w.\-+@]+\.json)", out))
@@ -644,6 +646,13 @@ class Worker:
                         res["kill_kind"] = r["kind"]
                         res["detail"] = r["detail"]
                         break
+                    if r["rc"] in (124, -9):
+                        # the check did not finish (the mutant makes the real env spin inside the harness): neither a VIOLATION
+                        # nor a clean pass; recorded separately, remaining checks skipped (they would spin as well)
+                        status = "check_timeout"
+                        res["timeout_in"] = p
+                        res["detail"] = "%s did not terminate within %d s (no verdict printed)" % (key, CHECK_TIMEOUT)
+                        break
                     if r["rc"] not in (0,):
                         res.setdefault("anomalies", []).append("%s rc=%d without VIOLATION" % (key, r["rc"]))
                 res["status"] = status
@@ -742,6 +751,63 @@ def run(args):
     print("done; see %s and %s" % (JSON_OUT, MD_OUT))
 
 
+def followup(args):
+    """Extra checks OUTSIDE the prescribed per-function sets, on survivors only: a survivor in mask/step/reset code is also
+    run against C03 (several envs compute the reward from bookkeeping accumulated in `_step`).  A kill here is recorded with
+    `followup_kill: true` (the prescribed set C01,C02,C04,C05 did not see the edit)."""
+    global STATE
+    STATE = json.loads(JSON_OUT.read_text())
+    if args.merge:
+        for mid, res in json.loads(Path(args.merge).read_text()).items():
+            STATE["mutants"][mid] = res
+        save_state()
+        write_report()
+        return
+    props = adapter_props()
+    replays_before = set(os.listdir(VERIF / "replays")) if (VERIF / "replays").exists() else set()
+    w = Worker(9, props, time.time() + args.minutes * 60, replays_before)
+    w.setup()
+    try:
+        cache = {}
+        for mid, res in sorted(STATE["mutants"].items()):
+            if res.get("status") != "survivor" or res.get("followup") is not None or time.time() > w.deadline:
+                continue
+            env = ENV_BY_NAME[res["env"]]
+            if args.envs and res["env"] not in args.envs.split(","):
+                continue
+            if res["env"] not in cache:
+                cache[res["env"]] = {m["id"]: m for m in enumerate_mutants(env)}
+            m = cache[res["env"]].get(mid)
+            if m is None or "dyn" not in m["cats"] or "C03" not in props.get(env["unit"], []):
+                continue
+            if any(c.get("check", "").startswith("C03/") for c in res.get("checks", [])):
+                continue
+            path = w.tree / m["file"]
+            orig = path.read_bytes()
+            try:
+                path.write_bytes(orig[:m["start"]] + m["rep"].encode() + orig[m["end"]:])
+                w.drop_pyc(m["file"])
+                r = w.run_check("C03", env["unit"])
+            finally:
+                path.write_bytes(orig)
+                w.drop_pyc(m["file"])
+            r["check"] = "C03/%s" % env["unit"]
+            res["followup"] = [r]
+            if r["violations"]:
+                res.update(status="killed", killed_by="C03", kill_kind=r["kind"], detail=r["detail"], followup_kill=True)
+            STATE["mutants"][mid] = res
+            if args.side:      # a sweep is still running and owns the json: keep the results aside, merge with `followup --merge`
+                side = json.loads(Path(args.side).read_text()) if Path(args.side).exists() else {}
+                side[mid] = res
+                Path(args.side).write_text(json.dumps(side, indent=1))
+            else:
+                save_state()
+                write_report()
+            print("%-58s followup C03: %s" % (mid, "KILLED (%s)" % r["kind"] if r["violations"] else "still survives"), flush=True)
+    finally:
+        w.teardown()
+
+
 # ---------------------------------------------------------------------------------------------- report
 def write_report():
     ms = STATE.get("mutants", {})
@@ -753,6 +819,7 @@ def write_report():
             tri = json.loads(tp.read_text())
         except Exception:
             tri = {}
+    notes = tri.pop("_notes", []) if isinstance(tri, dict) else []
     L = []
     L.append("# Mutation sweep of rl4co/envs/**/env.py against the registered checks (development audit)\n")
     L.append("Generated by `tools/mutation_sweep.py` (not a registered check). /repo HEAD `%s`, cap %s mutants per environment, seed 0, "
@@ -761,10 +828,15 @@ def write_report():
     L.append("One mutant = one single-site edit applied to a throw-away git worktree of /repo. Order per mutant: the env's own test in "
              "`tests/test_envs.py` (\"killed by tests\"), then the relevant checks `RL4CO_REPO=<tree> VERIF_ONLY=<unit> ./check Cxx --tier quick` "
              "(mask/step/reset: C01,C02,C04,C05; reward: C03,C04; checker: C06; scheduling +C07; FLP/MCP +C08), stopping at the first VIOLATION.\n")
+    if notes:
+        L.append("## Notes on this run\n")
+        for n in notes:
+            L.append("* " + n)
+        L.append("")
     props = ["import", "tests", "C01", "C02", "C03", "C04", "C05", "C06", "C07", "C08"]
     L.append("## Kill matrix\n")
-    L.append("| env | enumerated | selected | run | " + " | ".join(props) + " | survivors | no check | concrete / no-input |")
-    L.append("|---|---|---|---|" + "---|" * len(props) + "---|---|---|")
+    L.append("| env | enumerated | selected | run | " + " | ".join(props) + " | survivors | check timeout | no check | concrete / no-input |")
+    L.append("|---|---|---|---|" + "---|" * len(props) + "---|---|---|---|")
     tot = dict.fromkeys(props + ["run", "surv", "nochk", "conc", "noinp", "enum", "sel"], 0)
     for e in ENVS:
         n = e["name"]
@@ -775,16 +847,18 @@ def write_report():
         cnt = {p: sum(1 for m in rows if m.get("killed_by") == p) for p in props}
         surv = sum(1 for m in rows if m["status"] == "survivor")
         nochk = sum(1 for m in rows if m["status"] == "no_applicable_check")
+        tmo = sum(1 for m in rows if m["status"] == "check_timeout")
+        tot["tmo"] = tot.get("tmo", 0) + tmo
         conc = sum(1 for m in rows if m.get("kill_kind") == "concrete")
         noinp = sum(1 for m in rows if str(m.get("kill_kind", "")).startswith("no-failing-input-found"))
-        L.append("| %s | %s | %s | %d | %s | %d | %d | %d / %d |" % (
-            n, en["total"] if en else "?", en["selected"] if en else "?", len(rows), " | ".join(str(cnt[p] or "") for p in props), surv, nochk, conc, noinp))
+        L.append("| %s | %s | %s | %d | %s | %d | %d | %d | %d / %d |" % (
+            n, en["total"] if en else "?", en["selected"] if en else "?", len(rows), " | ".join(str(cnt[p] or "") for p in props), surv, tmo, nochk, conc, noinp))
         for p in props:
             tot[p] += cnt[p]
         tot["run"] += len(rows); tot["surv"] += surv; tot["nochk"] += nochk; tot["conc"] += conc; tot["noinp"] += noinp
         tot["enum"] += en["total"] if en else 0; tot["sel"] += en["selected"] if en else 0
-    L.append("| **all** | %d | %d | %d | %s | %d | %d | %d / %d |\n" % (
-        tot["enum"], tot["sel"], tot["run"], " | ".join(str(tot[p] or "") for p in props), tot["surv"], tot["nochk"], tot["conc"], tot["noinp"]))
+    L.append("| **all** | %d | %d | %d | %s | %d | %d | %d | %d / %d |\n" % (
+        tot["enum"], tot["sel"], tot["run"], " | ".join(str(tot[p] or "") for p in props), tot["surv"], tot.get("tmo", 0), tot["nochk"], tot["conc"], tot["noinp"]))
     L.append("\"concrete / no-input\": of the mutants killed by a check, how many were reported with a concrete replay of the property failing on "
              "the implementation vs. only as `no-failing-input-found` (model and implementation disagree, search found no property failure).\n")
     # operator matrix
@@ -834,11 +908,11 @@ def write_report():
             L.append("|---|---|---|---|---|---|---|")
             for m in rows:
                 L.append("| `%s` | %s | %s | %s | %s | %.0f | %s |" % (
-                    m["id"], m["status"].upper() if m["status"] == "survivor" else m["status"], m.get("killed_by", ""), m.get("kill_kind", "") or "",
+                    m["id"], m["status"].upper() if m["status"] == "survivor" else m["status"], m.get("killed_by", "") + (" (follow-up only)" if m.get("followup_kill") else ""), m.get("kill_kind", "") or "",
                     " ".join(c["check"].split("/")[0] for c in m.get("checks", []) if "skipped" not in c), m["seconds"],
                     (m.get("detail", "") or "").replace("|", "\\|").replace("\n", " ")[:160]))
             L.append("")
-            surv = [m for m in rows if m["status"] in ("survivor", "no_applicable_check")]
+            surv = [m for m in rows if m["status"] in ("survivor", "no_applicable_check", "check_timeout")]
             if surv:
                 L.append("Survivors / no applicable check, with their diffs:\n")
                 for m in surv:
@@ -857,6 +931,8 @@ def main():
     a = sub.add_parser("run"); a.add_argument("--envs", default=""); a.add_argument("--cap", type=int, default=25)
     a.add_argument("--workers", type=int, default=4); a.add_argument("--minutes", type=float, default=150); a.add_argument("--fresh", action="store_true")
     sub.add_parser("report")
+    a = sub.add_parser("followup"); a.add_argument("--minutes", type=float, default=20); a.add_argument("--envs", default="")
+    a.add_argument("--side", default=""); a.add_argument("--merge", default="")
     a = sub.add_parser("show"); a.add_argument("id")
     a = sub.add_parser("apply"); a.add_argument("id"); a.add_argument("tree")
     args = ap.parse_args()
@@ -874,6 +950,8 @@ def main():
                 print("  %-60s %s" % (m["id"], " => ".join(x[1:].strip() for x in chg)[:150]))
     elif args.cmd == "run":
         run(args)
+    elif args.cmd == "followup":
+        followup(args)
     elif args.cmd == "report":
         STATE = json.loads(JSON_OUT.read_text())
         write_report()
